@@ -322,3 +322,51 @@ def oracle_blocks(rng, pulse=None, n=2):
         cnt += 1
         if np.abs(exp_d - ic.expm[0]).max() > 1e-9: out.append(("CR drift", dict(theta=theta, phi=ph, t_cr=t_cr)))
     return cnt, out
+
+
+# ------------------------------------------------------------------ shared driver for the checks tied by the gate trace
+def run_gate_check(ck, oracle_fn, oracle_name, validate=("elementary", "composites")):
+    """regenerate GenGates.v, build Props/<ID>.v, validate the trace numerically, run the direct oracle, report"""
+    import json
+    import checks.gates_trace as gt
+    rng = np.random.default_rng(ck.seed)
+    bad = ck.hygiene()
+    if bad:
+        ck.report("hygiene", "forbidden construct: " + "; ".join(bad[:5]), {"theorem": "hygiene", "where": bad}, False)
+    T, trace_err = None, None
+    try:
+        T = gt.trace_everything()
+        gt.write_gen(T)
+    except Exception as e:  # noqa
+        trace_err = "%s: %s" % (type(e).__name__, e)
+    ck.oblige("symbolic trace of factories.py / gates.py / integrator lambdas regenerated (fail-closed)", T is not None)
+    ok, failing, out = (False, "trace:" + str(trace_err), trace_err) if T is None else ck.coq_props()
+    vbad = []
+    if T is not None:
+        from quantum_gates._gates.pulse import GaussianPulse, constant_pulse
+        if "elementary" in validate:
+            cnt, vb = validate_elementary(T, rng, [constant_pulse, GaussianPulse(0.5, 0.25)], 2 if ck.tier == "quick" else 8)
+            ck.count("trace_validation_elementary (U, drift, generator, sampler arguments vs intercepted real calls, every decision path)", cnt, key=("elem", ck.seed))
+            vbad += vb
+        if "composites" in validate:
+            cnt, vb = validate_composites(T, rng, 4 if ck.tier == "quick" else 30)
+            ck.count("trace_validation_composites", cnt, key=("comp", ck.seed))
+            vbad += vb
+        ck.oblige("traced expressions == intercepted real computations at random arguments", not vbad)
+        ck.samples.append({"family": "trace", "case": {"single-qubit paths": [p["dec"] for p in T["sq"]], "cr paths": len(T["cr"]),
+                                                        "CNOT calls": [(c[0], [repr(a) for a in c[1]]) for c in T["comp"]["CNOT"]["calls"]]}})
+    ocnt, obad = oracle_fn(rng)
+    ck.count(oracle_name, ocnt)
+    for i, b in enumerate(obad[:50]):
+        ck.distinct.add((oracle_name, i))
+    for i in range(min(ocnt, 400)):
+        ck.distinct.add((oracle_name + "_case", i))
+    ck.oblige("direct oracle %s on the implementation" % oracle_name, not obad)
+    if obad:
+        b = obad[0]
+        ck.report("oracle:" + str(b[1] if len(b) > 1 else b[0])[:60], "%s fails: %r" % (oracle_name, b), {"oracle": oracle_name, "case": json.loads(json.dumps(b, default=str))})
+    elif not ok:
+        ck.report("proof:" + str(failing), "proof obligation / regeneration no longer checks: %s" % failing, {"theorem": str(failing), "log": (out or "")[-1500:]}, False)
+    elif vbad:
+        ck.report("trace-validation", "traced expression disagrees with the real computation: %r" % (vbad[0][:2],), {"correspondence": "trace validation", "case": repr(vbad[0])[:1500]}, False)
+    return ck.finish()
